@@ -34,7 +34,7 @@ def instances(tier, seed):
 
 
 def free_sets(inst, tr, tier, rng):
-    return [[n for n, k, _, _ in tr.inputs if k in ("time", "thr")]]
+    return [[n for n, k, _, _ in tr.inputs if k in ("time", "thr") or n == "rep"]]
 
 
 def _inp(enc, n):
